@@ -1,5 +1,121 @@
 package main
 
+import (
+	"bytes"
+	"fmt"
+	"go/ast"
+	"go/format"
+	"go/types"
+	"os"
+	"path/filepath"
+	"sort"
+	"strconv"
+	"strings"
+
+	"golang.org/x/tools/go/packages"
+)
+
+// rewriteMaps finds every `for ... range X` whose X has map type in akita's
+// library packages and wraps X in vmap.Iter(X, siteID). Files that were already
+// rewritten by the sync seam are re-parsed from their rewritten form, so both
+// seams compose. It returns a description of every site.
 func rewriteMaps(rewritten map[string][]byte) ([]string, error) {
-	return nil, nil
+	// go/packages reads /repo; feed it the base overlay and the sync-seam rewrites
+	ov := map[string][]byte{}
+	for f, r := range base {
+		b, err := os.ReadFile(r)
+		if err != nil {
+			return nil, err
+		}
+		ov[f] = b
+	}
+	for f, b := range rewritten {
+		ov[f] = b
+	}
+	// the sync seam imports the virtual vsched package: give the loader its sources
+	for _, pair := range [][2]string{{*shimSrc, "vsched"}} {
+		_ = filepath.Walk(pair[0], func(p string, info os.FileInfo, err error) error {
+			if err != nil || info.IsDir() || !strings.HasSuffix(p, ".go") {
+				return nil
+			}
+			r, _ := filepath.Rel(pair[0], p)
+			b, e := os.ReadFile(p)
+			if e == nil {
+				ov[filepath.Join(*repo, pair[1], r)] = b
+			}
+			return nil
+		})
+	}
+	cfg := &packages.Config{
+		Mode:       packages.NeedName | packages.NeedFiles | packages.NeedCompiledGoFiles | packages.NeedSyntax | packages.NeedTypes | packages.NeedTypesInfo | packages.NeedImports,
+		Dir:        *repo,
+		Overlay:    ov,
+		BuildFlags: []string{"-tags=verif"},
+		Env:        append(os.Environ(), "GOFLAGS=-mod=mod", "GOPROXY=off"),
+	}
+	pats := []string{"./..."}
+	if *mapPkgs != "" {
+		pats = nil
+		for _, d := range splitList(*mapPkgs) {
+			pats = append(pats, "./"+d)
+		}
+	}
+	pkgs, err := packages.Load(cfg, pats...)
+	if err != nil {
+		return nil, err
+	}
+	var sites []string
+	siteID := 0
+	sort.Slice(pkgs, func(i, j int) bool { return pkgs[i].PkgPath < pkgs[j].PkgPath })
+	for _, pkg := range pkgs {
+		if len(pkg.Errors) > 0 {
+			// packages with broken generated code (missing mocks) only fail in tests; library errors are fatal
+			return nil, fmt.Errorf("package %s: %v", pkg.PkgPath, pkg.Errors[0])
+		}
+		rel := strings.TrimPrefix(pkg.PkgPath, modPath)
+		if strings.HasPrefix(rel, "/vsched") || strings.HasPrefix(rel, "/vmap") ||
+			strings.HasPrefix(rel, "/doc") || strings.Contains(rel, "/acceptancetests") || strings.HasPrefix(rel, "/examples") {
+			continue
+		}
+		for i, f := range pkg.Syntax {
+			path := pkg.CompiledGoFiles[i]
+			if !strings.HasPrefix(path, *repo) || strings.HasSuffix(path, "_test.go") {
+				continue
+			}
+			changed := false
+			ast.Inspect(f, func(n ast.Node) bool {
+				rs, ok := n.(*ast.RangeStmt)
+				if !ok {
+					return true
+				}
+				tv, ok := pkg.TypesInfo.Types[rs.X]
+				if !ok {
+					return true
+				}
+				if _, isMap := tv.Type.Underlying().(*types.Map); !isMap {
+					return true
+				}
+				p := pkg.Fset.Position(rs.Pos())
+				r, _ := filepath.Rel(*repo, p.Filename)
+				sites = append(sites, fmt.Sprintf("%d %s:%d %s", siteID, r, p.Line, tv.Type.String()))
+				rs.X = &ast.CallExpr{
+					Fun:  &ast.SelectorExpr{X: ast.NewIdent("vmap"), Sel: ast.NewIdent("Iter")},
+					Args: []ast.Expr{rs.X, &ast.BasicLit{Kind: 5 /* token.INT */, Value: strconv.Itoa(siteID)}},
+				}
+				siteID++
+				changed = true
+				return true
+			})
+			if !changed {
+				continue
+			}
+			addImport(f, modPath+"/vmap", "vmap")
+			var buf bytes.Buffer
+			if err := format.Node(&buf, pkg.Fset, f); err != nil {
+				return nil, err
+			}
+			rewritten[path] = buf.Bytes()
+		}
+	}
+	return sites, nil
 }
